@@ -87,3 +87,18 @@ Fixpoint c08_codes (l : list c08case) (i : N) : list N :=
       if (code =? 0)%N then c08_codes l' (N.succ i) else (4 * i + code)%N :: c08_codes l' (N.succ i)
   end.
 Definition c08_mismatches (l : list c08case) : list N := c08_codes l 0%N.
+
+(** ---- generateCaseNgrams as the product of the three fold orbits (second runner: the real function's output on
+    sampled trigrams is compared, as a duplicate-free set, with [variants3]) *)
+Definition orbit_full (c : N) : list N := c :: orbit c.
+Definition variants3 (a b c : N) : list (N * N * N) :=
+  flat_map (fun x => flat_map (fun y => map (fun z => (x, y, z)) (orbit_full c)) (orbit_full b)) (orbit_full a).
+Definition tri_eqb (u v : N * N * N) : bool :=
+  let '(a, b, c) := u in let '(x, y, z) := v in (a =? x)%N && (b =? y)%N && (c =? z)%N.
+Definition c08vcase := (N * N * N * list (N * N * N))%type.
+Definition c08v_ok (cs : c08vcase) : bool :=
+  let '(a, b, c, out) := cs in
+  let vs := variants3 a b c in
+  Nat.eqb (length vs) (length out) &&
+  forallb (fun v => existsb (tri_eqb v) out) vs && forallb (fun o => existsb (tri_eqb o) vs) out.
+Definition c08v_mismatches (l : list c08vcase) : list N := bad_indexes c08v_ok l.
